@@ -85,6 +85,37 @@ def pmap(func, items, args=(), chunk=None, nproc=None, fresh=True):
     return results
 
 
+def fork_call(func, *args):
+    """Run func(*args) in a freshly forked child of the current process and return its result
+    (usable inside pool workers, which may not create pools themselves)."""
+    import pickle
+
+    r, w = os.pipe()
+    pid = os.fork()
+    if pid == 0:
+        code = 0
+        try:
+            os.close(r)
+            try:
+                out = ("ok", func(*args))
+            except BaseException as e:  # noqa: BLE001
+                out = ("err", f"{type(e).__name__}: {e}\n{traceback.format_exc()[-1500:]}")
+            with os.fdopen(w, "wb") as f:
+                pickle.dump(out, f)
+        except BaseException:  # noqa: BLE001
+            code = 1
+        finally:
+            os._exit(code)
+    os.close(w)
+    with os.fdopen(r, "rb") as f:
+        data = f.read()
+    os.waitpid(pid, 0)
+    kind, val = pickle.loads(data)
+    if kind == "err":
+        raise RuntimeError("fork_call failed: " + val)
+    return val
+
+
 def default_key(case):
     return json.dumps(case, sort_keys=True, default=str)
 
